@@ -1,4 +1,4 @@
-\* greedy filling as in the code: token lengths {1,5,28,30}, <= 5 tokens,
+\* greedy filling as in the code, histories of calls on one persistent value object: token lengths {1,5,28,30}, <= 5 tokens,
 \* (line_len, max_line_len) over {30,31,60,80,100}^2
 SPECIFICATION Spec
 CONSTANTS
@@ -11,4 +11,5 @@ INVARIANT TypeOK
 INVARIANT PlacedPreserved
 INVARIANT WidthOK
 INVARIANT DoneOK
+PROPERTY InputUntouched
 CHECK_DEADLOCK FALSE
